@@ -107,7 +107,7 @@ def run(ck, prog, ctx):
             ck.undecided("TABLE", "slot/" + k, "shape not recognised")
             continue
         ck.ob("TABLE", "slot/" + k, v == ref, "reserved placeholder count: %s = %s, Arena::default pushes %s placeholder(s)" % (k, v, ref))
-    ck.floor("TABLE", "slot constants", len([v for v in consts.values() if v is not None]), 3)
+    ck.floor("TABLE", "slot constants", len([v for v in consts.values() if v is not None]), 3, soft=True)
     # the id -> slot table has one entry for EVERY id of the id space: ids are the numbers of <width> decimal digits that
     # `Display for HpoTermId` renders, so the table needs at least 10^width entries (Arena::insert indexes it unchecked)
     W = termid_display_width(prog)
@@ -181,6 +181,18 @@ def run(ck, prog, ctx):
             ck.undecided("DOM", "%s/access" % name, "no access to `terms` by slot recognised in Arena::%s" % name, where=b.where())
         for n, (bi, t) in enumerate(idx_calls):
             ok = any(b.edge_dominates(e, bi) for tst in tests for e in tst["nonzero_edges"])
+            if not ok and t.dest is not None and t.dest.is_local():
+                # `self.terms.get(slot).filter(|_| slot != 0)`: the term is read first and dropped afterwards unless the slot is not the placeholder's
+                for fbi, ft in b.calls():
+                    if ft.callee.method == "filter" and "Option" in (ft.callee.name or ft.callee.def_args or "") and len(ft.args) == 2 and any(a_[0] == "call" and a_[3] == b.id and a_[4] == bi for a_ in Prov(prog, inline=False).of_operand(b, ft.args[0])):
+                        cbf = prog.bodies.get(pv.closure_of_operand(b, ft.args[1]) or "")
+                        for st_ in ([] if cbf is None else [x_ for _, x_ in cbf.stmts()]):
+                            if st_.k == "assign" and st_.rv["k"] == "bin" and st_.rv["op"] == "Ne":
+                                ops_ = (st_.rv["l"], st_.rv["r"])
+                                zero_ = [o_ for o_ in ops_ if o_.kind == "const" and o_.int_value() == 0]
+                                slot_ = [o_ for o_ in ops_ if o_.kind != "const" and is_slot(pv.of_operand(cbf, o_))]
+                                if zero_ and slot_:
+                                    ok = True
             ck.ob("DOM", "%s/terms-access/%d" % (name, n), ok,
                   "Arena::%s hands out terms[slot] %s" % (name, "only on the slot != 0 edge" if ok else "without being dominated by a slot != 0 test: the placeholder term can be returned for an absent id"),
                   where=b.where(t.line))
